@@ -12,7 +12,12 @@ G1, G2 = I("http://g/1"), ("dg",)
 
 
 def sink_statements(k: int, quads: bool):
-    base = [(I(f"http://e/s{k}"), I("http://e/p"), I(f"http://e/o{k}")), (I(f"http://e/s{k}"), I("http://e/p"), ("lit", f"v{k}", "", ""))]
+    """Two statements per sink, plus what an ordered input may legitimately contain: the last statement TWICE in a row (sink 0), and a second
+    sink that starts with the s/p/o the first one ended with (in another graph) -- statements all of whose terms repeat the previous row."""
+    def two(j):
+        return [(I(f"http://e/s{j}"), I("http://e/p"), I(f"http://e/o{j}")), (I(f"http://e/s{j}"), I("http://e/p"), ("lit", f"v{j}", "", ""))]
+
+    base = two(k) + two(k)[1:] if k == 0 else two(0)[1:] + two(k)
     if not quads:
         return base
     return [st + ((G1 if k == 0 else G2),) for st in base]
@@ -149,10 +154,12 @@ def main(tier: str) -> int:
         c = o["cfg"]
         quads = c["sclass"] != "triple"
         per_sink = [sink_statements(k, quads) for k in range(c["nsinks"])]
-        items = [s for ss in per_sink for s in ss]
+        items_all = [s for ss in per_sink for s in ss]
         for integ in ("generic", "rdflib"):
             if tier == "quick" and integ == "rdflib" and c["fs"] == 2:
                 continue
+            # an rdflib Graph / Dataset is a set: duplicates inside one sink do not exist there
+            items = items_all if integ == "generic" else [s for ss in per_sink for s in dict.fromkeys(ss)]
             key = {"integ": integ, "entry": "stream_frames", "sclass": c["sclass"], "ltype": impl.LT_NAMES[c["lt"]], "delimited": c["delimited"],
                    "flow": c["flow"], "frame_size": c["fs"], "sinks": c["nsinks"]}
             add(key, {"cfg": c, "statements": per_sink}, bool(o["raised"]),
